@@ -907,7 +907,10 @@ where
             if !rewrite_includes_only {
                 match parsed_args.language {
                     Language::C => language = Some("cpp-output".into()),
-                    Language::GenericHeader | Language::CHeader | Language::CxxHeader => {}
+                    Language::GenericHeader
+                    | Language::CHeader
+                    | Language::CxxHeader
+                    | Language::ObjectiveCxxHeader => {}
                     _ => language.as_mut()?.push_str("-cpp-output"),
                 }
             }
